@@ -23,4 +23,8 @@ def run(tier):
     specs = [("stale_full3", 600, 2), ("stale_main2", 400, 1)] if q else [("stale_full3", 300, 2), ("stale_main2", 300, 1), ("stale_full4", 900, 3)]
     jobs = [Job("harness.c10", n, H.shards(n, pre), b, bounds=dict(kinds=[k[0] for k in H.KINDS], rows=H._CFG[n][0], verbose="bool"),
                 rule="one path = (sequence of row kinds, -v)", describe=H.describe) for n, b, pre in specs]
-    return run_check(PID, tier, jobs, H.FUNCTIONS, ASSUMPTIONS)
+    jobs.append(Job("harness.c10", "apply_nothing", H.shards("apply_nothing"), 300,
+                    bounds=dict(command="cli.main([... 'apply', module])", rows="1..2 stale rows (every stale kind)", module=["vfix.funcs (exists)", "vfix.gone (removed)"], verbose="bool"),
+                    rule="one path = (stale row kinds, target module, -v): apply with nothing decodable", describe=H.describe))
+    return run_check(PID, tier, jobs, H.FUNCTIONS + ["monkeytype.cli.apply_stub_handler (when nothing decodes)"], ASSUMPTIONS + [
+        "apply is only exercised when NO row decodes (so that the fixture source file is never rewritten); the file's text is compared before and after"])
